@@ -215,3 +215,73 @@ Example hypotheses_satisfiable :
   /\ choose_nonce [] key 12 (hex "aabbccddeeff001122334455") = Ok (hex "aabbccddeeff001122334455", [(ilabel 5, VBytes (hex "aabbccddeeff001122334455"))])
   /\ derive_nonce [(ilabel 6, VBytes (hex "0a0b")); (ilabel 5, VBytes (hex "01"))] key 12 = Err.
 Proof. vm_compute. repeat split; reflexivity. Qed.
+
+(* ---- C03: the nonce material binds. For one key (one Base IV) and one nonce length, two Partial IVs of the same
+   length that yield the same nonce are the same bytes; two caller IVs that yield the same nonce are the same bytes.
+   (A Partial IV and the same value with leading zero bytes denote the same RFC 9052 nonce: lengths are compared.) *)
+Lemma log2_lt8 x : (x < 256)%N -> (N.log2 x < 8)%N.
+Proof.
+  intro H. destruct (N.eq_dec x 0) as [->|Hx]; [cbn; lia|]. apply N.log2_lt_pow2; [lia|exact H].
+Qed.
+
+Lemma lxor_lt256 x y : (x < 256)%N -> (y < 256)%N -> (N.lxor x y < 256)%N.
+Proof.
+  intros Hx Hy. destruct (N.eq_dec (N.lxor x y) 0) as [E|E]; [lia|].
+  apply (N.log2_lt_pow2 (N.lxor x y) 8); [lia|].
+  eapply N.le_lt_trans; [apply N.log2_lxor|]. apply N.max_lub_lt; apply log2_lt8; assumption.
+Qed.
+
+Lemma xor_byte_cancel_r a b c : xor_byte a c = xor_byte b c -> a = b.
+Proof.
+  unfold xor_byte. intro H.
+  pose proof (to_N_lt a) as Ba. pose proof (to_N_lt b) as Bb. pose proof (to_N_lt c) as Bc.
+  assert (E : N.lxor (Byte.to_N a) (Byte.to_N c) = N.lxor (Byte.to_N b) (Byte.to_N c)).
+  { apply (f_equal Byte.to_N) in H. rewrite !to_N_b8 in H.
+    rewrite !N.mod_small in H by (apply lxor_lt256; assumption). exact H. }
+  assert (E2 : Byte.to_N a = Byte.to_N b).
+  { apply (f_equal (fun z => N.lxor z (Byte.to_N c))) in E.
+    rewrite !N.lxor_assoc, !N.lxor_nilpotent, !N.lxor_0_r in E. exact E. }
+  rewrite <- (b8_to_N a), <- (b8_to_N b). now rewrite E2.
+Qed.
+
+Lemma xor_combine_inj : forall (a b c : bytes), length a = length b ->
+  map (fun p => xor_byte (fst p) (snd p)) (combine a c) = map (fun p => xor_byte (fst p) (snd p)) (combine b c) ->
+  (length a <= length c)%nat -> a = b.
+Proof.
+  induction a as [|x a IH]; intros [|y b] c L H Hc; try discriminate; [reflexivity|].
+  destruct c as [|z c]; [cbn [length] in Hc; lia|]. cbn [combine map fst snd] in H. inversion H as [[H0 H1]].
+  apply xor_byte_cancel_r in H0. subst y. f_equal. apply (IH b c); [now inversion L|exact H1|cbn [length] in Hc; lia].
+Qed.
+
+Lemma fit_length n b : length (fit n b) = n.
+Proof. unfold fit. rewrite firstn_length, app_length, zeros_length. lia. Qed.
+
+Theorem rfc_nonce_injective base p1 p2 n : length p1 = length p2 -> (length p1 <= n)%nat ->
+  rfc_nonce base p1 n = rfc_nonce base p2 n -> p1 = p2.
+Proof.
+  intros L Hn H. unfold rfc_nonce in H. rewrite <- L in H.
+  apply xor_combine_inj in H.
+  - now apply app_inv_head in H.
+  - rewrite !app_length. lia.
+  - rewrite app_length, zeros_length, fit_length. lia.
+Qed.
+
+(* Decrypt (and Encrypt) of two messages under one key: equal derived nonces come from equal nonce material *)
+Theorem nonce_material_binds u1 u2 key nsize nonce :
+  derive_nonce u1 key nsize = Ok nonce -> derive_nonce u2 key nsize = Ok nonce -> nonce <> [] ->
+  forall iv1 piv1 iv2 piv2, get_bytes u1 5 = Ok iv1 -> get_bytes u1 6 = Ok piv1 -> get_bytes u2 5 = Ok iv2 -> get_bytes u2 6 = Ok piv2 ->
+  (piv1 = [] -> piv2 = [] -> iv1 = iv2) /\ (length piv1 = length piv2 -> piv1 = piv2).
+Proof.
+  intros D1 D2 Hne iv1 piv1 iv2 piv2 A1 B1 A2 B2. unfold derive_nonce in D1, D2. rewrite A1, B1 in D1. rewrite A2, B2 in D2.
+  split.
+  - intros -> ->. cbn [length Nat.eqb negb] in D1, D2. congruence.
+  - intro L. destruct piv1 as [|x1 p1]; destruct piv2 as [|x2 p2]; try discriminate; [reflexivity|].
+    cbn [length Nat.eqb negb] in D1, D2.
+    destruct (negb (Nat.eqb (length iv1) 0)); [discriminate|]. destruct (negb (Nat.eqb (length iv2) 0)); [discriminate|].
+    destruct (Nat.leb nsize (S (length p1))) eqn:G1; [discriminate|]. destruct (Nat.leb nsize (S (length p2))) eqn:G2; [discriminate|].
+    apply Nat.leb_gt in G1. apply Nat.leb_gt in G2.
+    destruct (get_bytes key 5) as [base| |]; try discriminate.
+    destruct (Nat.eqb (length base) 0); [discriminate|].
+    rewrite xor_iv_is_rfc in D1 by (cbn [length]; lia). rewrite xor_iv_is_rfc in D2 by (cbn [length]; lia).
+    apply (rfc_nonce_injective base (x1 :: p1) (x2 :: p2) nsize); [exact L|cbn [length]; lia|congruence].
+Qed.
